@@ -94,8 +94,13 @@ package utils
 // They are characterised by positions: 'h:p' = no leading '[', first ':' at position >= 1, nothing but the port after it;
 // '[h]:p' = leading '[', first ']' followed by ':' and the port, h = what lies between the brackets.
 
+//@ spec shp_ok(s string) bool
+//@ spec shp_host(s string) string
+//@ spec shp_port(s string) string
+
 //@ extern net.SplitHostPort
 //@   params hostport
+//@   ensures named: ((result2 == nil) <==> shp_ok(hostport)) && (result2 == nil ==> result0 == shp_host(hostport) && result1 == shp_port(hostport))
 //@   ensures no_colon_fails: !contains(hostport, ":") ==> result2 != nil
 //@   ensures ipv4_form: !prefixof("[", hostport) && indexof(hostport, ":") >= 0 && !contains(substr(hostport, indexof(hostport, ":") + 1, strlen(hostport)), ":") && !contains(hostport, "[") && !contains(hostport, "]") ==> result2 == nil && result0 == substr(hostport, 0, indexof(hostport, ":")) && result1 == substr(hostport, indexof(hostport, ":") + 1, strlen(hostport))
 //@   ensures ipv6_form: prefixof("[", hostport) && indexof(hostport, "]") >= 1 && substr(hostport, indexof(hostport, "]") + 1, 1) == ":" && !contains(substr(hostport, 1, indexof(hostport, "]") - 1), "[") && !contains(substr(hostport, indexof(hostport, "]") + 2, strlen(hostport)), ":") && !contains(substr(hostport, indexof(hostport, "]") + 2, strlen(hostport)), "[") && !contains(substr(hostport, indexof(hostport, "]") + 2, strlen(hostport)), "]") ==> result2 == nil && result0 == substr(hostport, 1, indexof(hostport, "]") - 1)
@@ -130,3 +135,16 @@ package utils
 //@   ensures header_form: prefixof("request.header.", variable) && strlen(variable) > 15 && variable != "client.ip" && variable != "request.host" ==> result1 == nil && result0 != nil && calls(makeHeaderExtractor) == 1 && callarg(makeHeaderExtractor, 0, 0) == substr(variable, 15, strlen(variable))
 //@   ensures empty_header_refused: variable == "request.header." ==> result1 != nil && result0 == nil
 //@   ensures unsupported_refused: variable != "client.ip" && variable != "request.host" && !prefixof("request.header.", variable) ==> result1 != nil && result0 == nil
+
+// ---- C08: header helpers ----------------------------------------------------------------------------------------------
+//@ func RemoveHeaders
+//@   props C08
+//@   requires headers != nil
+//@   modifies mapof(headers)
+//@   ensures values_stay_allocated: (forall k string :: old(allocated(backing(headers[k])))) ==> (forall k string :: allocated(backing(headers[k])))
+//@   ensures named_removed: forall i int :: 0 <= i && i < len(names) ==> header(headers, names[i]) == ""
+//@   ensures others_kept: forall k string :: (forall i int :: 0 <= i && i < len(names) ==> canon(names[i]) != canon(k)) ==> header(headers, k) == old(header(headers, k))
+//@   loop 1 invariant -1 <= rangeindex && rangeindex < len(names)
+//@   loop 1 invariant (forall k string :: old(allocated(backing(headers[k])))) ==> (forall k string :: allocated(backing(headers[k])))
+//@   loop 1 invariant forall i int :: 0 <= i && i <= rangeindex ==> header(headers, names[i]) == ""
+//@   loop 1 invariant forall k string :: (forall i int :: 0 <= i && i < len(names) ==> canon(names[i]) != canon(k)) ==> header(headers, k) == old(header(headers, k))
